@@ -397,7 +397,7 @@ func (s *BlockSpec) decode(content *hcl.BodyContent, blockLabels []blockLabel, c
 		if u.Unknown() {
 			// If the block's body is unknown then we can't predict whether
 			// the block will be present at all, so the result is unknown.
-			return cty.UnknownVal(s.impliedType().WithoutOptionalAttributesDeep()), diags
+			return prepareBodyVal(cty.UnknownVal(s.impliedType().WithoutOptionalAttributesDeep()), childBlock.Body), diags
 		}
 	}
 	val, _, childDiags := decode(childBlock.Body, labelsForBlock(childBlock), ctx, s.Nested, false)
@@ -493,7 +493,7 @@ func (s *BlockListSpec) decode(content *hcl.BodyContent, blockLabels []blockLabe
 			if u.Unknown() {
 				// If any block Body is unknown, then the entire block value
 				// must be unknown
-				return cty.UnknownVal(s.impliedType().WithoutOptionalAttributesDeep()), diags
+				return prepareBodyVal(cty.UnknownVal(s.impliedType().WithoutOptionalAttributesDeep()), childBlock.Body), diags
 			}
 		}
 
@@ -656,7 +656,7 @@ func (s *BlockTupleSpec) decode(content *hcl.BodyContent, blockLabels []blockLab
 			if u.Unknown() {
 				// If any block Body is unknown, then the entire block value
 				// must be unknown
-				return cty.UnknownVal(s.impliedType().WithoutOptionalAttributesDeep()), diags
+				return prepareBodyVal(cty.UnknownVal(s.impliedType().WithoutOptionalAttributesDeep()), childBlock.Body), diags
 			}
 		}
 
@@ -780,7 +780,7 @@ func (s *BlockSetSpec) decode(content *hcl.BodyContent, blockLabels []blockLabel
 			if u.Unknown() {
 				// If any block Body is unknown, then the entire block value
 				// must be unknown
-				return cty.UnknownVal(s.impliedType().WithoutOptionalAttributesDeep()), diags
+				return prepareBodyVal(cty.UnknownVal(s.impliedType().WithoutOptionalAttributesDeep()), childBlock.Body), diags
 			}
 		}
 
@@ -942,7 +942,7 @@ func (s *BlockMapSpec) decode(content *hcl.BodyContent, blockLabels []blockLabel
 			if u.Unknown() {
 				// If any block Body is unknown, then the entire block value
 				// must be unknown
-				return cty.UnknownVal(s.impliedType().WithoutOptionalAttributesDeep()), diags
+				return prepareBodyVal(cty.UnknownVal(s.impliedType().WithoutOptionalAttributesDeep()), childBlock.Body), diags
 			}
 		}
 
@@ -1098,7 +1098,7 @@ func (s *BlockObjectSpec) decode(content *hcl.BodyContent, blockLabels []blockLa
 			if u.Unknown() {
 				// If any block Body is unknown, then the entire block value
 				// must be unknown
-				return cty.UnknownVal(s.impliedType().WithoutOptionalAttributesDeep()), diags
+				return prepareBodyVal(cty.UnknownVal(s.impliedType().WithoutOptionalAttributesDeep()), childBlock.Body), diags
 			}
 		}
 
